@@ -4,7 +4,7 @@ from __future__ import annotations
 
 import ast
 
-from sa.cfg import all_paths_pass, dominators, reachable, reaches, specialize
+from sa.cfg import all_paths_pass, dominators, reachable, reaches, specialize, test_atoms
 from sa.db import AnalysisError, dotted, src, walk_local
 from sa.flow import backward_slice, defs_reaching, reaching_defs
 from sa.model import contains, enclosing, superstep_funcs
@@ -62,7 +62,19 @@ def run(ctx) -> None:
         # comparison only on re-execution; existence always
         g = enclosing(t, (ast.If,))
         ok = g is not None and "is not None" in src(g.test)
-        rep.add("C17.R1", f"{w.qname}:only-on-reexecution", ok, w.loc(), "version comparison applies only when the node has executed before" if ok else "version comparison is not restricted to re-execution (a first run would compare against version 0)")
+        if ok:
+            # 'has executed before' is the *only* condition of the freshness test: it holds for signals and
+            # for value names alike (whatever the waited-for name currently holds)
+            from .common import eval_bool, norm_atom
+
+            exec_atoms = {}
+            for a_ in test_atoms(g.test):
+                k_, _ = norm_atom(a_)
+                if k_.endswith(" is None"):
+                    exec_atoms[k_] = False
+            if eval_bool(g.test, exec_atoms) is not True:
+                ok = False
+        rep.add("C17.R1", f"{w.qname}:only-on-reexecution", ok, w.loc(), "version comparison applies exactly when the node has executed before" if ok else "the version comparison is not applied exactly on re-execution (missing, or under an extra condition such as 'the name holds a signal'): a first run would compare against version 0, or a waiter on a value name re-runs without a new production")
     ex = [n for n in walk_local(w.node) if isinstance(n, ast.If) and " not in " in src(n.test) and "values" in src(n.test) and any(isinstance(s, ast.Return) and isinstance(s.value, ast.Constant) and s.value.value is False for s in n.body)]
     in_loop = bool(ex) and enclosing(ex[0], (ast.For,)) is not None and "wait_for" in src(enclosing(ex[0], (ast.For,)).iter)
     rep.add("C17.R1", f"{w.qname}:existence", in_loop, w.loc(), "every waited-for name must exist in the state before the node may start" if in_loop else "the existence check of waited-for names is missing (a waiter could start before any producer completed)")
